@@ -233,7 +233,7 @@ def cases(tier):
     if tier == 'quick':
         plan = [(1, 2, 1), (2, 1, 0)]
     else:
-        plan = [(2, 2, 1), (3, 1, 1)]
+        plan = [(2, 2, 1), (3, 1, 0)]
     for maxtags, dev, splitdev in plan:
         for si, (shape, nslots) in enumerate(shapes(maxtags, 2)):
             if (maxtags, dev, splitdev) == plan[1] and \
